@@ -134,3 +134,8 @@ package prelude
 //@   ensures result == (arg0 == arg1)
 //@ func (github.com/cosmos/cosmos-sdk/types.Int).String
 //@   effectfree
+//@ func (github.com/cosmos/cosmos-sdk/types.Dec).MustFloat64
+//@   effectfree
+//@ func github.com/cosmos/cosmos-sdk/types.NewDecFromStr
+//@   uses dec
+//@   ensures err == nil ==> result0 == dec_parse(arg0)
